@@ -58,7 +58,7 @@ def same_row(a, b, tol):
 
 def run_case(rs, ctx):
     big = ctx.tier == "thorough" and ctx.index == 0
-    spec = simgen.gen_big_simulation(rs, is_quick=True) if big else simgen.gen_simulation(rs, force_empty=(ctx.index % 4 == 1))
+    spec = simgen.gen_big_simulation(rs, is_quick=True) if big else simgen.gen_simulation(rs, force_empty=(ctx.index % 4 == 1), data_metrics=True)
     if big:
         ctx.count("multi_chunk_simulations")
     p = spec["params"]
